@@ -7,8 +7,10 @@ package main
 import (
 	"encoding/json"
 	"flag"
+	"fmt"
 	"math/rand"
 	"os"
+	"sort"
 	"strings"
 
 	"verifharness/gq"
@@ -44,6 +46,12 @@ func cmdReplay(args []string) {
 		for si, s := range strings.Split(*strat, ",") {
 			lm := (i + si) % 3
 			lo := gq.Layouts[(i+si)%len(gq.Layouts)]
+			if gq.HasNthFault(c) { // accessor failures exist only behind AnyResolver.Len/Nth
+				if s != "any" {
+					continue
+				}
+				lm = int(gq.ListResolver)
+			}
 			w := worlds[s+string(rune('0'+lm))]
 			act := w.Run(c, lo)
 			nontrivial := len(c.Exp.Calls) >= 2
@@ -88,6 +96,7 @@ func cmdRecord(args []string) {
 	outp := fs.String("out", "", "ndjson output")
 	strat := fs.String("strategies", "iface,any", "strategies")
 	depth := fs.Int("depth", 3, "selection depth")
+	ncalls := fs.Int("calls", 1, "resolves per parsed document (C11: >1 reuses one parsed executable)")
 	_ = fs.Parse(args)
 	var fixed gq.Universe
 	vh.ReadJSON(*up, &fixed)
@@ -133,6 +142,52 @@ func cmdRecord(args []string) {
 			lm := rng.Intn(3)
 			lo := gq.Layouts[rng.Intn(len(gq.Layouts))]
 			w := worlds[s+string(rune('0'+lm))]
+			if *ncalls > 1 {
+				text := c.Doc.Text(lo)
+				exe, perr := w.Root.ParseExecutableString(text)
+				if perr != nil {
+					rep.Mismatch(vh.Mismatch{Case: text, What: "generated document refused: " + perr.Error()})
+					continue
+				}
+				before := canonPrint(exe.String())
+				w.SetFaults(c.Faults)
+				for call := 0; call < *ncalls; call++ {
+					vars := gq.ValMap{}
+					opn := c.Op
+					if call > 0 {
+						opn = c.Doc.Ops[rng.Intn(len(c.Doc.Ops))].Name
+						for _, vd := range c.Doc.Ops[0].Vars {
+							if rng.Intn(2) == 0 || vd.T.K == "nonnull" || !vd.HasDef {
+								switch vd.T.Base() {
+								case "String":
+									vars[vd.N] = gq.Str(fmt.Sprintf("v%d", rng.Intn(3)))
+								case "Boolean":
+									vars[vd.N] = gq.Bool(rng.Intn(2) == 0)
+								case "Int":
+									vars[vd.N] = gq.Int(int64(rng.Intn(7)))
+								}
+							}
+						}
+					} else {
+						vars = c.Vars
+					}
+					act := w.RunExe(exe, opn, vars)
+					rec := map[string]interface{}{"r": "case", "doc": c.Doc, "op": opn, "vars": vars, "faults": c.Faults,
+						"logcalls": true, "strategy": s, "text": c.Doc.Text(gq.Layouts[0]), "call": call + 1,
+						"act": map[string]interface{}{"hasData": act.HasData, "data": act.Data, "errs": pathsOnly(act.Errs), "calls": callsOrEmpty(act.Calls)}}
+					_ = enc.Encode(rec)
+					rep.Case(text+opn+vh.JS(vars)+vh.JS(c.Faults)+s+fmt.Sprint(call), call > 0)
+					if after := canonPrint(exe.String()); after != before {
+						rep.Mismatch(vh.Mismatch{Case: map[string]interface{}{"request": text, "call": call + 1, "op": opn, "vars": vars, "aspect": "printed"},
+							What: "printed: the executable's printed form changed from\n" + before + "to\n" + after})
+						before = after
+					}
+				}
+				if k == 0 && ui < 3 {
+					rep.Sample(map[string]interface{}{"request": text, "calls": *ncalls, "strategy": s})
+				}
+				continue
+			}
 			act := w.Run(c, lo)
 			idx++
 			rec := map[string]interface{}{"r": "case", "doc": c.Doc, "op": c.Op, "vars": c.Vars, "faults": c.Faults,
@@ -143,6 +198,183 @@ func cmdRecord(args []string) {
 			rep.Class("strategy:" + s)
 			if k == 0 && ui < 3 {
 				rep.Sample(map[string]interface{}{"request": c.Doc.Text(lo), "op": c.Op, "vars": c.Vars, "faults": c.Faults, "strategy": s})
+			}
+		}
+	}
+	rep.Emit()
+}
+
+// Session is one behaviour of MCReuse.tla.
+type Session struct {
+	Doc   gq.Doc `json:"doc"`
+	Calls []struct {
+		Op   string       `json:"op"`
+		Vars gq.ValMap    `json:"vars"`
+		Exp  *gq.Response `json:"exp"`
+	} `json:"calls"`
+}
+
+// canonLits sorts the entries of object literals (Go map iteration order shows in
+// Executable.String()); everything else, in particular the order of arguments,
+// is left as printed.
+func canonLits(s string) string {
+	var out strings.Builder
+	paren := 0
+	for i := 0; i < len(s); i++ {
+		c := s[i]
+		switch {
+		case c == '(':
+			paren++
+		case c == ')':
+			paren--
+		case c == '{' && paren > 0:
+			// balanced group
+			depth, j := 0, i
+			inStr := false
+			for ; j < len(s); j++ {
+				if s[j] == '"' && (j == 0 || s[j-1] != '\\') {
+					inStr = !inStr
+				}
+				if inStr {
+					continue
+				}
+				if s[j] == '{' {
+					depth++
+				} else if s[j] == '}' {
+					depth--
+					if depth == 0 {
+						break
+					}
+				}
+			}
+			if j < len(s) {
+				inner := s[i+1 : j]
+				// split at top-level commas
+				var parts []string
+				d, start := 0, 0
+				inStr = false
+				for k := 0; k < len(inner); k++ {
+					ch := inner[k]
+					if ch == '"' && (k == 0 || inner[k-1] != '\\') {
+						inStr = !inStr
+					}
+					if inStr {
+						continue
+					}
+					switch ch {
+					case '{', '[':
+						d++
+					case '}', ']':
+						d--
+					case ',':
+						if d == 0 {
+							parts = append(parts, strings.TrimSpace(inner[start:k]))
+							start = k + 1
+						}
+					}
+				}
+				parts = append(parts, strings.TrimSpace(inner[start:]))
+				for k := range parts {
+					parts[k] = canonLitsInner(parts[k])
+				}
+				sort.Strings(parts)
+				out.WriteString("{" + strings.Join(parts, ", ") + "}")
+				i = j
+				continue
+			}
+		}
+		out.WriteByte(c)
+	}
+	return out.String()
+}
+
+func canonLitsInner(s string) string { return strings.TrimSuffix(strings.TrimPrefix(canonLits("("+s+")"), "("), ")") }
+
+// canonical printed form: Executable.String() writes the operations in map order
+func canonPrint(s string) string {
+	s = canonLits(s)
+	lines := strings.Split(s, "\n")
+	// split into top-level blocks: a block starts at a line without leading space that is not "}"
+	var out []string
+	cur := ""
+	for _, ln := range lines {
+		if strings.TrimSpace(ln) == "" {
+			continue
+		}
+		if ln != "" && ln[0] != ' ' && ln[0] != '}' && cur != "" {
+			out = append(out, cur)
+			cur = ""
+		}
+		cur += ln + "\n"
+	}
+	if cur != "" {
+		out = append(out, cur)
+	}
+	sort.Strings(out)
+	return strings.Join(out, "")
+}
+
+// cmdReuse replays sessions of MCReuse.tla: one parse, several resolves (C11).
+func cmdReuse(args []string) {
+	fs := flag.NewFlagSet("reuse", flag.ExitOnError)
+	up := fs.String("universe", "", "universe json")
+	vp := fs.String("vectors", "", "sessions json")
+	strat := fs.String("strategies", "iface,any", "strategies")
+	_ = fs.Parse(args)
+	var u gq.Universe
+	vh.ReadJSON(*up, &u)
+	var sessions []Session
+	vh.ReadJSON(*vp, &sessions)
+	rep := vh.NewReport("exec", "reuse")
+	for si, st := range strings.Split(*strat, ",") {
+		w, err := gq.NewWorld(&u, gq.Strategy(st), gq.ListMode(si%3))
+		if err != nil {
+			vh.Die("%s", err)
+		}
+		for i := range sessions {
+			s := &sessions[i]
+			text := s.Doc.Text(gq.Layouts[(i+si)%len(gq.Layouts)])
+			exe, perr := w.Root.ParseExecutableString(text)
+			key := st + "|" + s.Doc.Text(gq.Layouts[0])
+			for _, c := range s.Calls {
+				key += "|" + c.Op + vh.JS(c.Vars)
+			}
+			distinct := map[string]bool{}
+			for _, c := range s.Calls {
+				distinct[c.Op+vh.JS(c.Vars)] = true
+			}
+			rep.Case(key, len(distinct) >= 2)
+			rep.Class("strategy:" + st)
+			if i%401 == 0 {
+				rep.Sample(map[string]interface{}{"request": text, "calls": s.Calls, "strategy": st})
+			}
+			cs := map[string]interface{}{"request": s.Doc.Text(gq.Layouts[0]), "strategy": st}
+			if perr != nil {
+				// the whole document is refused at parse time: every call must be refused by the model too
+				for k, c := range s.Calls {
+					if c.Exp.HasData {
+						cs["call"] = k + 1
+						cs["aspect"] = "data"
+						rep.Mismatch(vh.Mismatch{Case: cs, Step: k + 1, What: "data: document refused by the parser (" + perr.Error() + ") but the model resolves it"})
+					}
+				}
+				continue
+			}
+			before := canonPrint(exe.String())
+			w.SetFaults(nil)
+			for k, c := range s.Calls {
+				act := w.RunExe(exe, c.Op, c.Vars)
+				for _, d := range gq.Compare(c.Exp, act, true) {
+					cc := map[string]interface{}{"request": cs["request"], "strategy": st, "call": k + 1, "op": c.Op, "vars": c.Vars, "aspect": d.Aspect,
+						"previous_calls": s.Calls[:k]}
+					rep.Mismatch(vh.Mismatch{Case: cc, Step: k + 1, What: d.Aspect + ": call " + fmt.Sprint(k+1) + " of the session: " + d.What})
+				}
+				after := canonPrint(exe.String())
+				if after != before {
+					cc := map[string]interface{}{"request": cs["request"], "strategy": st, "call": k + 1, "op": c.Op, "vars": c.Vars, "aspect": "printed"}
+					rep.Mismatch(vh.Mismatch{Case: cc, Step: k + 1, What: "printed: the executable's printed form changed from\n" + before + "to\n" + after})
+					before = after
+				}
 			}
 		}
 	}
@@ -177,6 +409,8 @@ func main() {
 		cmdReplay(os.Args[2:])
 	case "record":
 		cmdRecord(os.Args[2:])
+	case "reuse":
+		cmdReuse(os.Args[2:])
 	default:
 		vh.Die("unknown mode %s", os.Args[1])
 	}
